@@ -42,15 +42,25 @@ theorem osSend_other (s : St) (cid : Nat) (o : Outcome) : OtherCallsSame cid s (
       · exact updCall_other s cid _
 
 theorem removeTimer_calls (s : St) (k : Nat) : (removeTimer s k).calls = s.calls := by
-  unfold removeTimer; split <;> rfl
+  unfold removeTimer; split
+  · simp only; split <;> simp
+  · rfl
 theorem removeTimer_pq (s : St) (k : Nat) : (removeTimer s k).pq = s.pq := by
-  unfold removeTimer; split <;> rfl
+  unfold removeTimer; split
+  · simp only; split <;> simp
+  · rfl
 theorem removeTimer_cq (s : St) (k : Nat) : (removeTimer s k).cq = s.cq := by
-  unfold removeTimer; split <;> rfl
+  unfold removeTimer; split
+  · simp only; split <;> simp
+  · rfl
 theorem removeTimer_inflight (s : St) (k : Nat) : (removeTimer s k).inflight = s.inflight := by
-  unfold removeTimer; split <;> rfl
+  unfold removeTimer; split
+  · simp only; split <;> simp
+  · rfl
 theorem removeTimer_t (s : St) (k : Nat) : (removeTimer s k).t = s.t := by
-  unfold removeTimer; split <;> rfl
+  unfold removeTimer; split
+  · simp only; split <;> simp
+  · rfl
 
 theorem completeRequest_targets {s : St} {id : Nat} {e : Entry} (hf : findEntry s id = some e) (o : Outcome) :
     (completeRequest s id o).2 = true ∧
